@@ -3,6 +3,7 @@
 package oapi
 
 import (
+	"bytes"
 	"encoding/json"
 	"fmt"
 	"os"
@@ -24,10 +25,42 @@ func Load(path string) (*Doc, error) {
 
 func Parse(b []byte) (*Doc, error) {
 	var m map[string]any
-	if err := json.Unmarshal(b, &m); err != nil {
+	dec := json.NewDecoder(bytes.NewReader(b))
+	dec.UseNumber()
+	if err := dec.Decode(&m); err != nil {
 		return nil, fmt.Errorf("spec is not a JSON object: %w", err)
 	}
-	return &Doc{Raw: m}, nil
+	if dec.More() {
+		return nil, fmt.Errorf("spec is not a JSON object: data after the top-level value")
+	}
+	return &Doc{Raw: narrow(m).(map[string]any)}, nil
+}
+
+// narrow turns json.Number into float64 wherever that is exact (|v| < 2^53 and the same printed form);
+// larger integers (uint64 enum constants...) stay json.Number so that their digits survive.
+func narrow(v any) any {
+	switch t := v.(type) {
+	case map[string]any:
+		for k, x := range t {
+			t[k] = narrow(x)
+		}
+		return t
+	case []any:
+		for i, x := range t {
+			t[i] = narrow(x)
+		}
+		return t
+	case json.Number:
+		f, err := t.Float64()
+		if err != nil {
+			return t
+		}
+		if f > -9007199254740992 && f < 9007199254740992 {
+			return f
+		}
+		return t
+	}
+	return v
 }
 
 var Verbs = []string{"get", "post", "put", "delete", "patch", "head", "options", "trace"}
